@@ -12,6 +12,14 @@ Proof. unfold key_eqb. apply list_eqb_eq. intros x y. apply String.eqb_eq. Qed.
 Lemma key_eqb_refl k : key_eqb k k = true.
 Proof. apply key_eqb_eq. reflexivity. Qed.
 
+Lemma cid_eqb_eq a b : cid_eqb a b = true <-> a = b.
+Proof.
+  destruct a as [h c], b as [h' c']. unfold cid_eqb; simpl.
+  rewrite Bool.andb_true_iff, !String.eqb_eq. split; [intros [-> ->]; reflexivity|intros E; inversion E; auto].
+Qed.
+Lemma cid_eqb_refl a : cid_eqb a a = true.
+Proof. apply cid_eqb_eq. reflexivity. Qed.
+
 Lemma eclass_eqb_refl e : eclass_eqb e e = true.
 Proof. destruct e; simpl; try reflexivity. apply Z.eqb_refl. Qed.
 
@@ -39,17 +47,17 @@ Lemma can_ask_route cfg s ho :
   can_ask cfg (eps s) ho = match route cfg s ho with inl (_, c) => Some c | inr _ => None end.
 Proof.
   unfold can_ask, route. destruct ho as [h|]; [|reflexivity].
-  destruct (cluster_of cfg h) as [c|]; [|reflexivity].
+  destruct (cluster_of (eps s) h) as [c|]; [|reflexivity].
   unfold ready. rewrite (existsb_ext' _ (fun e => ep_ready (snd e))).
   - destruct (existsb (fun e => ep_ready (snd e)) (e_list (eps s) c)); reflexivity.
   - intros [srv [a b]]. unfold ep_ready; simpl. apply Bool.andb_comm.
 Qed.
 
 Lemma route_inl cfg s ho h c :
-  route cfg s ho = inl (h, c) -> ho = Some h /\ cluster_of cfg h = Some c /\ ready s c = true.
+  route cfg s ho = inl (h, c) -> ho = Some h /\ cluster_of (eps s) h = Some c /\ ready s c = true.
 Proof.
   unfold route. destruct ho as [h'|]; [|discriminate].
-  destruct (cluster_of cfg h') as [c'|] eqn:Ec; [|discriminate].
+  destruct (cluster_of (eps s) h') as [c'|] eqn:Ec; [|discriminate].
   destruct (ready s c') eqn:Er; [|discriminate].
   intros E. inversion E; subst. auto.
 Qed.
@@ -147,12 +155,11 @@ Section Generic.
   Hypothesis Httl : forall cb a ttl, k_ttl K cb a = Some ttl -> p_ttl P a = Some ttl.
   Hypothesis Hvalid : forall now exp, k_valid K now exp = true -> now <= exp.
 
-  (* the checker has counted the same calls, and every cache entry of host h is an answer of
-     cluster_of h recorded in the checker's history since that cluster was last replaced *)
+  (* the checker has counted the same calls, and every entry of a cache (host, cluster) is an answer
+     of that cluster recorded in the checker's history since the cluster was last replaced / deleted *)
   Definition inv_k (st : kstate R) (ck : ckk R) : Prop :=
     (forall c, c_cnt ck c = kn st c) /\
-    (forall h k r exp, kc st h k = Some (r, exp) ->
-       exists c, cluster_of cfg h = Some c /\ src (c_hist ck) c k r exp).
+    (forall id k r exp, kc st id k = Some (r, exp) -> src (c_hist ck) (snd id) k r exp).
 
   Lemma src_push_fill hist c0 k0 r0 e0 c k (r : R) exp :
     src hist c k r exp -> src (HFill c0 k0 r0 e0 :: hist) c k r exp.
@@ -171,15 +178,15 @@ Section Generic.
     unfold serve in Hreq.
     (* cache hit? *)
     destruct (if k_bypass K then None
-              else match kc st h k with
+              else match kc st (h, c) k with
                    | Some (r0, exp) => if k_valid K now exp then Some r0 else None
                    | None => None
                    end) as [r0|] eqn:Ehit.
     - inversion Hreq; subst. clear Hreq.
       destruct (k_bypass K); [discriminate|].
-      destruct (kc st' h k) as [[r1 exp]|] eqn:Ek; [|discriminate].
+      destruct (kc st' (h, c) k) as [[r1 exp]|] eqn:Ek; [|discriminate].
       destruct (k_valid K now exp) eqn:Ev; [|discriminate]. inversion Ehit; subst.
-      destruct (Hcache _ _ _ _ Ek) as [c0 [Hc0 Hsrc]]. rewrite Hc in Hc0. inversion Hc0; subst.
+      pose proof (Hcache _ _ _ _ Ek) as Hsrc. simpl in Hsrc.
       unfold check_req; simpl.
       rewrite (src_has_source _ Hrefl _ _ _ _ _ _ Hsrc (Hvalid _ _ Ev)).
       eexists. split; [reflexivity|]. split; simpl; assumption.
@@ -196,16 +203,16 @@ Section Generic.
       + intros c'. rewrite Hcnt'. unfold upd_cnt. rewrite !Hcnt. reflexivity.
       + intros h' k' r' exp' Hk'.
         assert (Hold : forall hist', (forall c1 k1 r1 e1, src (c_hist ck) c1 k1 r1 e1 -> src hist' c1 k1 r1 e1) ->
-                  kc st h' k' = Some (r', exp') -> exists c1, cluster_of cfg h' = Some c1 /\ src hist' c1 k' r' exp').
-        { intros hist' Hmono Hk. destruct (Hcache _ _ _ _ Hk) as [c1 [H1 H2]]. exists c1. split; auto. }
+                  kc st h' k' = Some (r', exp') -> src hist' (snd h') k' r' exp').
+        { intros hist' Hmono Hk. apply Hmono. eapply Hcache; eauto. }
         destruct (k_bypass K).
         * destruct (p_ttl P a) as [ttl|]; apply Hold; auto. intros; apply src_push_fill; assumption.
         * destruct (k_ttl K cb a) as [ttl|] eqn:Et.
           -- rewrite (Httl _ _ _ Et). unfold upd_cache in Hk'.
-             destruct (String.eqb h' h && key_eqb k' k)%bool eqn:Ehk.
+             destruct (cid_eqb h' (h, c) && key_eqb k' k)%bool eqn:Ehk.
              ++ apply Bool.andb_true_iff in Ehk. destruct Ehk as [E1 E2].
-                apply String.eqb_eq in E1. apply key_eqb_eq in E2. subst. inversion Hk'; subst.
-                exists c. split; [assumption|]. simpl. left. try rewrite Hres. auto.
+                apply cid_eqb_eq in E1. apply key_eqb_eq in E2. subst. inversion Hk'; subst.
+                simpl. left. try rewrite Hres. auto.
              ++ apply Hold; auto. intros; apply src_push_fill; assumption.
           -- destruct (p_ttl P a) as [ttl|]; apply Hold; auto. intros; apply src_push_fill; assumption.
   Qed.
@@ -222,7 +229,7 @@ Section Generic.
   Lemma request_decided (s : state) st ck h c k cb now st' r calls :
     inv_k st ck ->
     request cfg K orc s st (Some h) k cb now = (st', r, calls) ->
-    cluster_of cfg h = Some c ->
+    cluster_of (eps s) h = Some c ->
     (forall u, r <> k_unavail K u) ->
     decided_by P ck c k now r calls = true.
   Proof.
@@ -240,22 +247,18 @@ Section Generic.
     - destruct calls as [|cl calls]; simpl; [|reflexivity]. simpl in Hcached. exact Hcached.
   Qed.
 
-  Lemma inv_restart st ck c : inv_k st ck -> inv_k (drop_cluster cfg c st) (restart_k c ck).
+  Lemma inv_restart st ck c : inv_k st ck -> inv_k (drop_cluster c st) (restart_k c ck).
   Proof.
     intros [Hcnt Hcache]. split; simpl; [assumption|].
-    intros h k r exp Hk. destruct (cluster_of cfg h) as [c'|] eqn:Ec.
-    - destruct (String.eqb c' c) eqn:E; [discriminate|].
-      destruct (Hcache _ _ _ _ Hk) as [c1 [H1 H2]]. rewrite Ec in H1. inversion H1; subst.
-      exists c1. split; [reflexivity|]. split; [|assumption].
-      intros ->. rewrite String.eqb_refl in E. discriminate.
-    - destruct (Hcache _ _ _ _ Hk) as [c1 [H1 _]]. rewrite Ec in H1. discriminate.
+    intros id k r exp Hk. destruct (String.eqb (snd id) c) eqn:E; [discriminate|].
+    split; [|eauto]. intros ->. rewrite String.eqb_refl in E. discriminate.
   Qed.
 
   Lemma inv_evict st ck h k : inv_k st ck -> inv_k (evict h k st) ck.
   Proof.
     intros [Hcnt Hcache]. split; simpl; [assumption|].
-    intros h' k' r exp Hk. unfold upd_cache in Hk.
-    destruct (String.eqb h' h && key_eqb k' k)%bool; [discriminate|]. eauto.
+    intros h' k' r exp Hk.
+    destruct (String.eqb (fst h') h && key_eqb k' k)%bool; [discriminate|]. eauto.
   Qed.
 
   Lemma inv_init : inv_k init_k {| c_cnt := fun _ => O; c_hist := [] |}.
@@ -273,14 +276,14 @@ Section Generic.
   Lemma request_calls (s : state) st ho k cb now st' r calls :
     request cfg K orc s st ho k cb now = (st', r, calls) ->
     forall cl, In cl calls ->
-      exists h, ho = Some h /\ cluster_of cfg h = Some (fst cl) /\ ready s (fst cl) = true /\ snd cl = true.
+      exists h, ho = Some h /\ cluster_of (eps s) h = Some (fst cl) /\ ready s (fst cl) = true /\ snd cl = true.
   Proof.
     unfold request. destruct (route cfg s ho) as [[h c]|u] eqn:Er.
     2:{ intros H; inversion H; subst. intros cl []. }
     destruct (route_inl _ _ _ _ _ Er) as [-> [Hc Hready]].
     unfold serve.
     destruct (if k_bypass K then None
-              else match kc st h k with
+              else match kc st (h, c) k with
                    | Some (r0, exp) => if k_valid K now exp then Some r0 else None
                    | None => None
                    end) as [r0|].
@@ -290,16 +293,16 @@ Section Generic.
   Qed.
 
   (* a request addressed to host h leaves every other host's cache as it was *)
-  Lemma request_other_host (s : state) st ho k cb now st' r calls h2 :
+  Lemma request_other_host (s : state) st ho k cb now st' r calls (id2 : cid) :
     request cfg K orc s st ho k cb now = (st', r, calls) ->
-    ho <> Some h2 -> forall k2, kc st' h2 k2 = kc st h2 k2.
+    ho <> Some (fst id2) -> forall k2, kc st' id2 k2 = kc st id2 k2.
   Proof.
     unfold request. destruct (route cfg s ho) as [[h c]|u] eqn:Er.
     2:{ intros H; inversion H; subst. reflexivity. }
     destruct (route_inl _ _ _ _ _ Er) as [-> [Hc Hready]].
     unfold serve.
     destruct (if k_bypass K then None
-              else match kc st h k with
+              else match kc st (h, c) k with
                    | Some (r0, exp) => if k_valid K now exp then Some r0 else None
                    | None => None
                    end) as [r0|].
@@ -308,21 +311,21 @@ Section Generic.
       intros H Hne k2; inversion H; subst; simpl.
       destruct (k_bypass K); [reflexivity|].
       destruct (k_ttl K cb a); [|reflexivity].
-      unfold upd_cache. destruct (String.eqb h2 h) eqn:E; [|reflexivity].
-      apply String.eqb_eq in E. subst. contradiction Hne. reflexivity.
+      unfold upd_cache. destruct (cid_eqb id2 (h, c)) eqn:E; [|reflexivity].
+      apply cid_eqb_eq in E. subst. contradiction Hne. reflexivity.
   Qed.
 
   (* ... and asks no cluster but its own: every other cluster's call counter is unchanged *)
   Lemma request_other_cluster (s : state) st ho k cb now st' r calls c2 :
     request cfg K orc s st ho k cb now = (st', r, calls) ->
-    (forall h, ho = Some h -> cluster_of cfg h <> Some c2) -> kn st' c2 = kn st c2.
+    (forall h, ho = Some h -> cluster_of (eps s) h <> Some c2) -> kn st' c2 = kn st c2.
   Proof.
     unfold request. destruct (route cfg s ho) as [[h c]|u] eqn:Er.
     2:{ intros H; inversion H; subst. reflexivity. }
     destruct (route_inl _ _ _ _ _ Er) as [-> [Hc Hready]].
     unfold serve.
     destruct (if k_bypass K then None
-              else match kc st h k with
+              else match kc st (h, c) k with
                    | Some (r0, exp) => if k_valid K now exp then Some r0 else None
                    | None => None
                    end) as [r0|].
@@ -358,7 +361,7 @@ Proof. simpl. lia. Qed.
 
 (* ---------- whole histories ---------- *)
 Definition inv (cfg : config) (s : state) (k : ck) : Prop :=
-  c_eps k = eps s /\ inv_k cfg (ts s) (c_t k) /\ inv_k cfg (ss s) (c_s k).
+  c_eps k = eps s /\ inv_k (ts s) (c_t k) /\ inv_k (ss s) (c_s k).
 
 Lemma inv_start cfg : inv cfg (init cfg) (ck_init cfg).
 Proof. split; [reflexivity|]. split; apply inv_init. Qed.
@@ -368,7 +371,9 @@ Lemma step_ok cfg torc sorc s k o :
   exists k', check_step cfg torc sorc k o (snd (step cfg torc sorc s o)) = (k', all_ok)
              /\ inv cfg (fst (step cfg torc sorc s o)) k'.
 Proof.
-  intros [He [Ht Hs]]. destruct o as [ho tok now|ho a now|srv b|srv b|c|h tok|h a|c srv|c srv]; simpl.
+  intros [He [Ht Hs]].
+  destruct o as [ho tok now|ho a now|srv b|srv b|c|h tok|h a|c srv|c srv|c h|c h|c|c]; simpl;
+    try (eexists; split; [reflexivity|]; split; [|split]; simpl; [rewrite He; reflexivity|assumption|assumption]).
   - destruct (request cfg (tkind cfg) torc s (ts s) ho (tkey tok) true now) as [[st' r] calls] eqn:E. simpl.
     destruct (request_ok cfg (tkind cfg) (tspec cfg) torc t_res_expected tresult_eqb_refl (t_neg cfg)
                 (t_ttl_ok cfg) (t_valid_le cfg) s _ _ _ _ _ _ _ _ _ Ht E) as [k' [Hk Hi]].
@@ -379,8 +384,6 @@ Proof.
                 (s_ttl_ok cfg) (s_valid_le cfg) s _ _ _ _ _ _ _ _ _ Hs E) as [k' [Hk Hi]].
     rewrite He. rewrite Hk.
     eexists. split; [reflexivity|]. split; [|split]; simpl; [reflexivity|assumption|assumption].
-  - eexists. split; [reflexivity|]. split; [|split]; simpl; [rewrite He; reflexivity|assumption|assumption].
-  - eexists. split; [reflexivity|]. split; [|split]; simpl; [rewrite He; reflexivity|assumption|assumption].
   - eexists. split; [reflexivity|]. split; [|split]; simpl.
     + rewrite He. reflexivity.
     + apply inv_restart. assumption.
@@ -389,8 +392,10 @@ Proof.
     apply inv_evict. assumption.
   - eexists. split; [reflexivity|]. split; [|split]; simpl; [assumption|assumption|].
     apply inv_evict. assumption.
-  - eexists. split; [reflexivity|]. split; [|split]; simpl; [rewrite He; reflexivity|assumption|assumption].
-  - eexists. split; [reflexivity|]. split; [|split]; simpl; [rewrite He; reflexivity|assumption|assumption].
+  - eexists. split; [reflexivity|]. split; [|split]; simpl.
+    + rewrite He. reflexivity.
+    + apply inv_restart. assumption.
+    + apply inv_restart. assumption.
 Qed.
 
 Definition is_request_op (o : op) : bool :=
@@ -406,7 +411,7 @@ Qed.
 
 (* the token authentication of a chain request that passes was decided by the host's cluster *)
 Lemma authn_decided cfg torc sorc s k h c tok now r calls u :
-  inv cfg s k -> cluster_of cfg h = Some c ->
+  inv cfg s k -> cluster_of (eps s) h = Some c ->
   snd (step cfg torc sorc s (OAuthn (Some h) tok now)) = OutT r calls ->
   authn_passes (OutT r calls) = Some u ->
   decided_by (tspec cfg) (c_t k) c [tok] now r calls = true.
@@ -420,7 +425,7 @@ Proof.
 Qed.
 
 Lemma authz_decided cfg torc sorc s k h c a now r calls :
-  inv cfg s k -> cluster_of cfg h = Some c ->
+  inv cfg s k -> cluster_of (eps s) h = Some c ->
   snd (step cfg torc sorc s (OAuthz (Some h) a now)) = OutS r calls ->
   authz_passes (OutS r calls) = true ->
   decided_by (sspec cfg) (c_s k) c (sar_key a) now r calls = true.
@@ -460,7 +465,7 @@ Proof.
     destruct (step_ok cfg torc sorc s1 k1 b Hi1) as [k2 [Hk2 Hi2]].
     destruct (step cfg torc sorc s1 b) as [s2 y]. simpl in *.
     rewrite Hk1, Hk2. simpl. eauto.
-  - cbn [stepx]. destruct (cluster_of cfg h) as [c|] eqn:Ec; [|simpl; eauto].
+  - cbn [stepx]. destruct (cluster_of (eps s) h) as [c|] eqn:Ec; [|simpl; eauto].
     destruct (step_ok cfg torc sorc s k (OAuthn (Some h) tok now) Hi) as [k1 [Hk1 Hi1]].
     destruct (step_authn_out cfg torc sorc s (Some h) tok now) as [r [calls Hout]].
     pose proof (authn_decided cfg torc sorc s k h c tok now r calls) as Hdt.
@@ -473,7 +478,10 @@ Proof.
     2:{ cbn [fst snd check_stepx]. rewrite Hk1, Hdt. eauto. }
     destruct (step_ok cfg torc sorc s1 k1 (OAuthz (Some h) (imp_attrs u target) now) Hi1) as [k2 [Hk2 Hi2]].
     destruct (step_authz_out cfg torc sorc s1 (Some h) (imp_attrs u target) now) as [r2 [calls2 Hout2]].
-    pose proof (authz_decided cfg torc sorc s1 k1 h c (imp_attrs u target) now r2 calls2 Hi1 Ec) as Hdz.
+    assert (Ec1 : cluster_of (eps s1) h = Some c).
+    { replace s1 with (fst (step cfg torc sorc s (OAuthn (Some h) tok now))) by (rewrite Es1; reflexivity).
+      rewrite step_eps_request by reflexivity. exact Ec. }
+    pose proof (authz_decided cfg torc sorc s1 k1 h c (imp_attrs u target) now r2 calls2 Hi1 Ec1) as Hdz.
     destruct (step cfg torc sorc s1 (OAuthz (Some h) (imp_attrs u target) now)) as [s2 xz] eqn:Es2.
     cbn [fst snd] in *. subst xz.
     cbn [check_stepx]. rewrite Hk1. rewrite (authn_passes_user _ _ _ Ep). rewrite Hk2.
@@ -532,39 +540,38 @@ Proof.
     split; [destruct u; discriminate|]. split; [reflexivity|]. repeat split.
 Qed.
 
-(* hosts whose caches an operation may touch *)
-Definition touches (cfg : config) (o : op) (h : host) : Prop :=
+(* caches (host, cluster) an operation may touch *)
+Definition touches (o : op) (id : cid) : Prop :=
   match o with
-  | OAuthn (Some h') _ _ | OAuthz (Some h') _ _ | OEvictT h' _ | OEvictS h' _ => h' = h
-  | ORestart c => cluster_of cfg h = Some c
+  | OAuthn (Some h') _ _ | OAuthz (Some h') _ _ | OEvictT h' _ | OEvictS h' _ => h' = fst id
+  | ORestart c | ODelete c => c = snd id
   | _ => False
   end.
 
-Theorem no_shared_entry cfg torc sorc s o h2 :
-  ~ touches cfg o h2 ->
-  forall k, kc (ts (fst (step cfg torc sorc s o))) h2 k = kc (ts s) h2 k /\
-            kc (ss (fst (step cfg torc sorc s o))) h2 k = kc (ss s) h2 k.
+Theorem no_shared_entry cfg torc sorc s o id2 :
+  ~ touches o id2 ->
+  forall k, kc (ts (fst (step cfg torc sorc s o))) id2 k = kc (ts s) id2 k /\
+            kc (ss (fst (step cfg torc sorc s o))) id2 k = kc (ss s) id2 k.
 Proof.
-  intros Hn k. destruct o as [ho tok now|ho a now|srv b|srv b|c|h tok|h a|c srv|c srv]; simpl in *.
+  intros Hn k.
+  destruct o as [ho tok now|ho a now|srv b|srv b|c|h tok|h a|c srv|c srv|c h|c h|c|c]; simpl in *;
+    try (split; reflexivity).
   - destruct (request cfg (tkind cfg) torc s (ts s) ho (tkey tok) true now) as [[st' r] calls] eqn:E. simpl.
     split; [|reflexivity]. eapply request_other_host; eauto.
     intros ->. apply Hn. reflexivity.
   - destruct (request cfg (skind cfg) sorc s (ss s) ho (sar_key a) (should_cache a) now) as [[st' r] calls] eqn:E. simpl.
     split; [reflexivity|]. eapply request_other_host; eauto.
     intros ->. apply Hn. reflexivity.
-  - split; reflexivity.
-  - split; reflexivity.
-  - destruct (cluster_of cfg h2) as [c'|] eqn:Ec; [|split; reflexivity].
-    destruct (String.eqb c' c) eqn:E; [|split; reflexivity].
+  - destruct (String.eqb (snd id2) c) eqn:E; [|split; reflexivity].
     apply String.eqb_eq in E. subst. contradiction Hn. reflexivity.
-  - split; [|reflexivity]. unfold upd_cache.
-    destruct (String.eqb h2 h) eqn:E; [|reflexivity].
+  - split; [|reflexivity].
+    destruct (String.eqb (fst id2) h) eqn:E; [|reflexivity].
     apply String.eqb_eq in E. subst. contradiction Hn. reflexivity.
-  - split; [reflexivity|]. unfold upd_cache.
-    destruct (String.eqb h2 h) eqn:E; [|reflexivity].
+  - split; [reflexivity|].
+    destruct (String.eqb (fst id2) h) eqn:E; [|reflexivity].
     apply String.eqb_eq in E. subst. contradiction Hn. reflexivity.
-  - split; reflexivity.
-  - split; reflexivity.
+  - destruct (String.eqb (snd id2) c) eqn:E; [|split; reflexivity].
+    apply String.eqb_eq in E. subst. contradiction Hn. reflexivity.
 Qed.
 
 Definition out_calls (x : out) : list call :=
@@ -574,12 +581,12 @@ Definition op_host (o : op) : option host :=
 
 Theorem own_cluster cfg torc sorc s o cl :
   In cl (out_calls (snd (step cfg torc sorc s o))) ->
-  exists h, op_host o = Some h /\ cluster_of cfg h = Some (fst cl) /\ snd cl = true /\
+  exists h, op_host o = Some h /\ cluster_of (eps s) h = Some (fst cl) /\ snd cl = true /\
     exists srv st, In (srv, st) (e_list (eps s) (fst cl)) /\ ep_ready st = true.
 Proof.
   intros Hin.
-  assert (H : exists h, op_host o = Some h /\ cluster_of cfg h = Some (fst cl) /\ ready s (fst cl) = true /\ snd cl = true).
-  { destruct o as [ho tok now|ho a now|srv b|srv b|c|h tok|h a|c srv|c srv]; simpl in *; try contradiction.
+  assert (H : exists h, op_host o = Some h /\ cluster_of (eps s) h = Some (fst cl) /\ ready s (fst cl) = true /\ snd cl = true).
+  { destruct o as [ho tok now|ho a now|srv b|srv b|c|h tok|h a|c srv|c srv|c h|c h|c|c]; simpl in *; try contradiction.
     - destruct (request cfg (tkind cfg) torc s (ts s) ho (tkey tok) true now) as [[st' r] calls] eqn:E. simpl in Hin.
       eapply request_calls; eauto.
     - destruct (request cfg (skind cfg) sorc s (ss s) ho (sar_key a) (should_cache a) now) as [[st' r] calls] eqn:E. simpl in Hin.
@@ -591,11 +598,11 @@ Qed.
 
 (* a request never advances the review counter (= never consumes an answer) of a cluster it is not addressed to *)
 Theorem other_clusters_not_asked cfg torc sorc s o c2 :
-  (forall h, op_host o = Some h -> cluster_of cfg h <> Some c2) ->
+  (forall h, op_host o = Some h -> cluster_of (eps s) h <> Some c2) ->
   kn (ts (fst (step cfg torc sorc s o))) c2 = kn (ts s) c2 /\
   kn (ss (fst (step cfg torc sorc s o))) c2 = kn (ss s) c2.
 Proof.
-  intros Hn. destruct o as [ho tok now|ho a now|srv b|srv b|c|h tok|h a|c srv|c srv]; simpl in *; try (split; reflexivity).
+  intros Hn. destruct o as [ho tok now|ho a now|srv b|srv b|c|h tok|h a|c srv|c srv|c h|c h|c|c]; simpl in *; try (split; reflexivity).
   - destruct (request cfg (tkind cfg) torc s (ts s) ho (tkey tok) true now) as [[st' r] calls] eqn:E. simpl.
     split; [|reflexivity]. eapply request_other_cluster; eauto.
   - destruct (request cfg (skind cfg) sorc s (ss s) ho (sar_key a) (should_cache a) now) as [[st' r] calls] eqn:E. simpl.
@@ -609,17 +616,17 @@ Section Commute.
   Variable K : kind A R.
   Variable orc : cluster -> nat -> A.
 
-  (* a served request reads and writes only its host's cache and its cluster's counter *)
+  (* a served request reads and writes only its own cache (host, cluster) and its cluster's counter *)
   Lemma serve_local st st' h c k cb now :
-    (forall k', kc st h k' = kc st' h k') -> kn st c = kn st' c ->
+    (forall k', kc st (h, c) k' = kc st' (h, c) k') -> kn st c = kn st' c ->
     snd (fst (serve K orc st h c k cb now)) = snd (fst (serve K orc st' h c k cb now)) /\
     snd (serve K orc st h c k cb now) = snd (serve K orc st' h c k cb now) /\
-    (forall k', kc (fst (fst (serve K orc st h c k cb now))) h k' = kc (fst (fst (serve K orc st' h c k cb now))) h k') /\
+    (forall k', kc (fst (fst (serve K orc st h c k cb now))) (h, c) k' = kc (fst (fst (serve K orc st' h c k cb now))) (h, c) k') /\
     kn (fst (fst (serve K orc st h c k cb now))) c = kn (fst (fst (serve K orc st' h c k cb now))) c.
   Proof.
     intros Hk Hn. unfold serve. rewrite <- (Hk k), <- Hn.
     destruct (if k_bypass K then None
-              else match kc st h k with
+              else match kc st (h, c) k with
                    | Some (r0, exp) => if k_valid K now exp then Some r0 else None
                    | None => None
                    end) as [r0|]; simpl.
@@ -628,23 +635,23 @@ Section Commute.
       repeat split; auto.
       + intros k'. destruct (k_bypass K); [apply Hk|].
         destruct (k_ttl K cb a); [|apply Hk].
-        unfold upd_cache. destruct (String.eqb h h && key_eqb k' k)%bool; [reflexivity|apply Hk].
+        unfold upd_cache. destruct (cid_eqb (h, c) (h, c) && key_eqb k' k)%bool; [reflexivity|apply Hk].
       + unfold upd_cnt. rewrite String.eqb_refl. reflexivity.
   Qed.
 
-  Lemma serve_other_host st h c k cb now h2 k2 :
-    h2 <> h -> kc (fst (fst (serve K orc st h c k cb now))) h2 k2 = kc st h2 k2.
+  Lemma serve_other_host st h c k cb now (id2 : cid) k2 :
+    id2 <> (h, c) -> kc (fst (fst (serve K orc st h c k cb now))) id2 k2 = kc st id2 k2.
   Proof.
     intros Hne. unfold serve.
     destruct (if k_bypass K then None
-              else match kc st h k with
+              else match kc st (h, c) k with
                    | Some (r0, exp) => if k_valid K now exp then Some r0 else None
                    | None => None
                    end) as [r0|]; simpl; [reflexivity|].
     destruct (ask (k_retriable K) (k_retries K) (orc c) (kn st c)) as [a n]. simpl.
     destruct (k_bypass K); [reflexivity|]. destruct (k_ttl K cb a); [|reflexivity].
-    unfold upd_cache. destruct (String.eqb h2 h) eqn:E; [|reflexivity].
-    apply String.eqb_eq in E. contradiction.
+    unfold upd_cache. destruct (cid_eqb id2 (h, c)) eqn:E; [|reflexivity].
+    apply cid_eqb_eq in E. contradiction.
   Qed.
 
   Lemma serve_other_cluster st h c k cb now c2 :
@@ -652,7 +659,7 @@ Section Commute.
   Proof.
     intros Hne. unfold serve.
     destruct (if k_bypass K then None
-              else match kc st h k with
+              else match kc st (h, c) k with
                    | Some (r0, exp) => if k_valid K now exp then Some r0 else None
                    | None => None
                    end) as [r0|]; simpl; [reflexivity|].
@@ -661,14 +668,14 @@ Section Commute.
     apply String.eqb_eq in E. contradiction.
   Qed.
 
-  Definition req_cluster (ho : option host) : option cluster :=
-    match ho with Some h => cluster_of cfg h | None => None end.
+  Definition req_cluster (E : epstate) (ho : option host) : option cluster :=
+    match ho with Some h => cluster_of E h | None => None end.
 
   Definition keqv (a b : kstate R) : Prop :=
     (forall h k, kc a h k = kc b h k) /\ (forall c, kn a c = kn b c).
 
   Lemma request_commute (s : state) st ho1 k1 cb1 now1 ho2 k2 cb2 now2 :
-    (req_cluster ho1 = None \/ req_cluster ho2 = None \/ req_cluster ho1 <> req_cluster ho2) ->
+    (req_cluster (eps s) ho1 = None \/ req_cluster (eps s) ho2 = None \/ req_cluster (eps s) ho1 <> req_cluster (eps s) ho2) ->
     let r1 := request cfg K orc s st ho1 k1 cb1 now1 in
     let r12 := request cfg K orc s (fst (fst r1)) ho2 k2 cb2 now2 in
     let r2 := request cfg K orc s st ho2 k2 cb2 now2 in
@@ -686,7 +693,8 @@ Section Commute.
     destruct (route_inl _ _ _ _ _ E2) as [-> [Hc2 _]].
     simpl in Hd. rewrite Hc1, Hc2 in Hd.
     assert (Hc : c1 <> c2) by (destruct Hd as [H|[H|H]]; try discriminate; congruence).
-    assert (Hh : h1 <> h2) by (intros ->; rewrite Hc1 in Hc2; congruence).
+    assert (Hh : (h1, c1) <> (h2, c2)) by congruence.
+    assert (Hh' : (h2, c2) <> (h1, c1)) by congruence.
     set (a1 := serve K orc st h1 c1 k1 cb1 now1).
     set (a2 := serve K orc st h2 c2 k2 cb2 now2).
     (* serve 2 after 1 sees, at (h2, c2), the same as serve 2 on st *)
@@ -699,10 +707,13 @@ Section Commute.
     fold a1 in Q1, Q2, Q3, Q4. fold a2 in P1, P2, P3, P4.
     repeat split; auto.
     - intros h k.
-      destruct (String.eqb_spec h h2) as [->|N2].
+      destruct (cid_eqb h (h2, c2)) eqn:N2; [apply cid_eqb_eq in N2; subst h|].
       + rewrite P3. symmetry. apply serve_other_host. auto.
-      + rewrite serve_other_host by assumption.
-        destruct (String.eqb_spec h h1) as [->|N1].
+      + assert (N2' : h <> (h2, c2)) by (intros ->; rewrite cid_eqb_refl in N2; discriminate).
+        clear N2. rename N2' into N2.
+        rewrite serve_other_host by assumption.
+        destruct (cid_eqb h (h1, c1)) eqn:N1; [apply cid_eqb_eq in N1; subst h|
+          assert (N1' : h <> (h1, c1)) by (intros ->; rewrite cid_eqb_refl in N1; discriminate); clear N1; rename N1' into N1].
         * symmetry. apply Q3.
         * unfold a1. rewrite serve_other_host by assumption.
           rewrite serve_other_host by assumption. unfold a2. rewrite serve_other_host by assumption. reflexivity.
@@ -726,7 +737,7 @@ Proof. intros H. unfold request. rewrite (route_eps cfg s s' ho H). reflexivity.
 
 Definition is_request (o : op) : bool :=
   match o with OAuthn _ _ _ | OAuthz _ _ _ => true | _ => false end.
-Definition op_cluster (cfg : config) (o : op) : option cluster := req_cluster cfg (op_host o).
+Definition op_cluster (E : epstate) (o : op) : option cluster := req_cluster E (op_host o).
 
 (* same endpoints, same cache contents for every host and key, same review counters for every cluster *)
 Definition state_eqv (a b : state) : Prop :=
@@ -737,7 +748,7 @@ Proof. split; reflexivity. Qed.
 
 Theorem overlap_commutes cfg torc sorc s a b :
   is_request a = true -> is_request b = true ->
-  (op_cluster cfg a = None \/ op_cluster cfg b = None \/ op_cluster cfg a <> op_cluster cfg b) ->
+  (op_cluster (eps s) a = None \/ op_cluster (eps s) b = None \/ op_cluster (eps s) a <> op_cluster (eps s) b) ->
   let ra := step cfg torc sorc s a in
   let rab := step cfg torc sorc (fst ra) b in
   let rb := step cfg torc sorc s b in
@@ -745,8 +756,8 @@ Theorem overlap_commutes cfg torc sorc s a b :
   snd ra = snd rba /\ snd rab = snd rb /\ state_eqv (fst rab) (fst rba).
 Proof.
   intros Ha Hb Hd.
-  destruct a as [ho1 tok1 now1|ho1 a1 now1| | | | | | |]; try discriminate;
-  destruct b as [ho2 tok2 now2|ho2 a2 now2| | | | | | |]; try discriminate; unfold op_cluster in Hd; simpl in Hd.
+  destruct a as [ho1 tok1 now1|ho1 a1 now1| | | | | | | | | | |]; try discriminate;
+  destruct b as [ho2 tok2 now2|ho2 a2 now2| | | | | | | | | | |]; try discriminate; unfold op_cluster in Hd; simpl in Hd.
   - (* token / token *)
     pose proof (request_commute cfg (tkind cfg) torc s (ts s) ho1 (tkey tok1) true now1 ho2 (tkey tok2) true now2 Hd) as H.
     simpl in H. simpl.
@@ -793,10 +804,10 @@ Qed.
 (* ---------- a chain request is dispatched to the cluster that reviewed it ---------- *)
 Theorem chain_dispatch cfg torc sorc s h tok imp now t z d :
   snd (stepx cfg torc sorc s (Chain h tok imp now)) = RC t z (Some d) ->
-  cluster_of cfg h = Some d /\
+  cluster_of (eps s) h = Some d /\
   (forall x cl, (t = Some x \/ z = Some x) -> In cl (out_calls x) -> fst cl = d /\ snd cl = true).
 Proof.
-  cbn [stepx]. destruct (cluster_of cfg h) as [c|] eqn:Ec; [|simpl; intros H; discriminate H].
+  cbn [stepx]. destruct (cluster_of (eps s) h) as [c|] eqn:Ec; [|simpl; intros H; discriminate H].
   pose proof (own_cluster cfg torc sorc s (OAuthn (Some h) tok now)) as Ho1.
   destruct (step cfg torc sorc s (OAuthn (Some h) tok now)) as [s1 xt] eqn:Es1.
   destruct (authn_passes xt) as [u|]; [|simpl; intros H; discriminate H].
@@ -809,9 +820,47 @@ Proof.
     + destruct (Ho1 cl Hin) as [h' [E1 [E2 [E3 _]]]]. simpl in E1. inversion E1; subst h'.
       rewrite Ec in E2. inversion E2. auto.
     + destruct (Ho2 cl Hin) as [h' [E1 [E2 [E3 _]]]]. simpl in E1. inversion E1; subst h'.
-      rewrite Ec in E2. inversion E2. auto.
+      assert (He1 : eps s1 = eps s).
+      { replace s1 with (fst (step cfg torc sorc s (OAuthn (Some h) tok now))) by (rewrite Es1; reflexivity).
+        apply step_eps_request. reflexivity. }
+      rewrite He1, Ec in E2. inversion E2. auto.
   - simpl. intros H. inversion H; subst. split; [reflexivity|].
     intros x cl [E|E] Hin; inversion E; subst x.
     destruct (Ho1 cl Hin) as [h' [E1 [E2 [E3 _]]]]. simpl in E1. inversion E1; subst h'.
     rewrite Ec in E2. inversion E2. auto.
+Qed.
+
+(* ---------- what a request for h gets depends on nothing but the cache (h, owner of h now), that
+   owner's oracle position and the endpoints: never on a cache the host had under another cluster ---------- *)
+Lemma request_local {A R} cfg (K : kind A R) orc s s' st st' h c k cb now :
+  eps s = eps s' -> cluster_of (eps s) h = Some c ->
+  (forall k', kc st (h, c) k' = kc st' (h, c) k') -> kn st c = kn st' c ->
+  snd (fst (request cfg K orc s st (Some h) k cb now)) = snd (fst (request cfg K orc s' st' (Some h) k cb now)) /\
+  snd (request cfg K orc s st (Some h) k cb now) = snd (request cfg K orc s' st' (Some h) k cb now).
+Proof.
+  intros He Hc Hk Hn. rewrite <- (request_eps cfg K orc s s' st' (Some h) k cb now He).
+  unfold request. destruct (route cfg s (Some h)) as [[h' c']|u] eqn:Er; [|split; reflexivity].
+  destruct (route_inl _ _ _ _ _ Er) as [Eh [Hc' _]]. inversion Eh; subst h'.
+  rewrite Hc in Hc'. inversion Hc'; subst c'.
+  destruct (serve_local K orc st st' h c k cb now Hk Hn) as [H1 [H2 _]]. split; assumption.
+Qed.
+
+Theorem owner_cache_only cfg torc sorc s s' h c :
+  eps s = eps s' -> cluster_of (eps s) h = Some c ->
+  (forall k, kc (ts s) (h, c) k = kc (ts s') (h, c) k) -> kn (ts s) c = kn (ts s') c ->
+  (forall k, kc (ss s) (h, c) k = kc (ss s') (h, c) k) -> kn (ss s) c = kn (ss s') c ->
+  (forall tok now, snd (step cfg torc sorc s (OAuthn (Some h) tok now)) = snd (step cfg torc sorc s' (OAuthn (Some h) tok now))) /\
+  (forall a now, snd (step cfg torc sorc s (OAuthz (Some h) a now)) = snd (step cfg torc sorc s' (OAuthz (Some h) a now))).
+Proof.
+  intros He Hc Ht Hnt Hs Hns. split.
+  - intros tok now. simpl.
+    destruct (request_local cfg (tkind cfg) torc s s' (ts s) (ts s') h c (tkey tok) true now He Hc Ht Hnt) as [H1 H2].
+    destruct (request cfg (tkind cfg) torc s (ts s) (Some h) (tkey tok) true now) as [[st1 r1] c1].
+    destruct (request cfg (tkind cfg) torc s' (ts s') (Some h) (tkey tok) true now) as [[st2 r2] c2].
+    simpl in *. subst. reflexivity.
+  - intros a now. simpl.
+    destruct (request_local cfg (skind cfg) sorc s s' (ss s) (ss s') h c (sar_key a) (should_cache a) now He Hc Hs Hns) as [H1 H2].
+    destruct (request cfg (skind cfg) sorc s (ss s) (Some h) (sar_key a) (should_cache a) now) as [[st1 r1] c1].
+    destruct (request cfg (skind cfg) sorc s' (ss s') (Some h) (sar_key a) (should_cache a) now) as [[st2 r2] c2].
+    simpl in *. subst. reflexivity.
 Qed.
